@@ -237,3 +237,14 @@ TEXT["C06"] = {
          "Trusted: loop mirrors (tied exactly by the judge), translator for the group operations.",
  "technique": "Lean 4 proof (induction over digits and lanes; endomorphism algebra; transfer to Mathlib's elliptic-curve group; closed facts by kernel evaluation) + exact differential correspondence",
 }
+TEXT["C15"]["note"] = ("The marshal AND unmarshal models of the round-trip theorems are the definitions the differential judge executes against the real code (Impl/Marshal.lean; the judge's decoders are proved equivalent to the validating ones).  "
+                       "Parameters/keys accept any non-zero signature byte and GT bytes are not validated by the library, so for those the unmarshallers accept more than the marshaller's range (a property of the format).  LQ-IBE objects: element readers shared, object level by correspondence only.  Trusted: hand models mirror marshal.cpp (tied by running both).")
+TEXT["C10"] = {
+ "level": "Lean 4 theorems.  Hash-to-scalar: zp_from_hash / scalar_hash_reduce = (bytes with top bit cleared) mod r by one conditional subtraction, < r.  Samplers: Fq/Fr/Fq2 sampling returns the first masked draw below the modulus, result < modulus, exact stream accounting; the x-adic sampler's digits recombine to the returned y < r.  "
+          "Try-and-increment (model of curve.hpp try_and_increment/from_hash, tied to the real code by the judge): FIRST HIT for both groups - the result is x0+n with n least such that x^3+b is a square, y the root selected by the flag, on the curve, never the identity, independent of the fuel (determinism); "
+          "TOTALITY for G1 with an explicit bound (the loop stops at x = 0 at the latest since (0,2) is on the curve); inside from_hash the hash_reduce step is the identity on reduced input and the flag is always false (as observed in the code).  Identity derivation = cofactor * from_hash, on the curve, total.  "
+          "sample_random_generator (model judged draw for draw): result = cofactor * (first drawn curve point whose multiple is not the identity), on the curve, non-identity, exact byte accounting.  Correspondence with the random source carried in the op line: forced rejections, draws hitting small-order points, hashes 00..00, ff..ff, q, q-1.",
+ "note": "Named hypothesis H-card (HCardG1/HCardG2: cofactor*r kills every curve point): under it id_hash and both samplers land in the order-r subgroup; the judge additionally checks r*P = 0 on every sample.  Partial: G2 try-and-increment totality needs a point-count bound on lines (Hasse-Weil for a genus-2 curve; not in Mathlib) - proved under an explicit, checkable hypothesis; no usable bound on the number of increments is claimed.  "
+         "Proved observation: sample_random_generator is NOT total - on an exhausted all-zero stream the real loop never terminates (the drawn point has order dividing the cofactor); the sampler theorems are partial-correctness statements.  The all-zero 48-byte hash derives the identity as LQ-IBE identity point.",
+ "technique": "Lean 4 proof (first-hit characterisation of the search loops; finite-field square-root theory; group law) + exact-stream differential correspondence",
+}
